@@ -370,6 +370,12 @@ impl WriteHalf {
             return Err(io::Error::new(io::ErrorKind::BrokenPipe, "Broken pipe"));
         }
 
+        // A reset connection reports the error even when the writer is out
+        // of credits, otherwise it would wait for credits forever.
+        if !self.is_connected() {
+            return Err(io::Error::new(io::ErrorKind::BrokenPipe, "Broken pipe"));
+        }
+
         if !self.flow_control.try_acquire() {
             return Err(io::Error::new(
                 io::ErrorKind::WouldBlock,
@@ -393,11 +399,16 @@ impl WriteHalf {
                 "Broken pipe",
             )));
         }
-        if self.flow_control.has_credits() {
+        if self.flow_control.has_credits() || !self.is_connected() {
             return Poll::Ready(Ok(()));
         }
         self.flow_control.register_waker(cx.waker().clone());
         Poll::Pending
+    }
+
+    // The stream socket is gone once the connection was reset.
+    fn is_connected(&self) -> bool {
+        World::current(|world| world.current_host_mut().tcp.has_stream(*self.pair))
     }
 
     fn poll_write_priv(&self, cx: &mut Context<'_>, buf: &[u8]) -> Poll<Result<usize>> {
@@ -511,6 +522,13 @@ impl BidiFlowControl {
         Self {
             write: self.read,
             read: self.write,
+        }
+    }
+
+    /// Wake the writer of this side if it is parked waiting for credits.
+    pub(crate) fn wake_writer(&self) {
+        if let Some(waker) = self.write.waker.lock().unwrap().take() {
+            waker.wake();
         }
     }
 }
